@@ -785,6 +785,7 @@ def Expr.nfInv : Expr → Prop
   | .wth .. => False
   | .asrt .. => False
   | .sel .. => False
+  | .selOr .. => False
 def allNfInv : List Expr → Prop
   | [] => True
   | e :: rest => e.nfInv ∧ allNfInv rest
@@ -806,6 +807,7 @@ def Expr.inlineClean : Expr → Prop
   | .wth .. => False
   | .asrt .. => False
   | .sel .. => False
+  | .selOr .. => False
 def allInlineClean : List Expr → Prop
   | [] => True
   | e :: rest => e.inlineClean ∧ allInlineClean rest
@@ -1256,6 +1258,7 @@ theorem rebuildAP_summ : (e : Expr) → e.ok → e.mlSafe → e.nfInv → e.inli
   | .wth .., _, _, hinv, _, _, _, _ => hinv.elim
   | .asrt .., _, _, hinv, _, _, _, _ => hinv.elim
   | .sel .., _, _, hinv, _, _, _, _ => hinv.elim
+  | .selOr .., _, _, hinv, _, _, _, _ => hinv.elim
 theorem joinNl_summ : (es : List Expr) → allOk es → allMlSafe es → allNfInv es → allInlineClean es → nonLastClosed es → es ≠ [] → ∀ (i : Nat),
     ∃ l f t, summ (joinP [.ws ['\n']] (rebuildAllP es i false)) = .lexy l f true t ∧ f ≠ semi ∧ VLead l ∧ TrailT t
   | [], _, _, _, _, _, h, _ => absurd rfl h
@@ -1296,6 +1299,7 @@ theorem previewP_summ : (e : Expr) → e.ok → e.mlSafe → e.nfInv → e.inlin
   | .wth .., _, _, _, _, i, p, h => by simp [Expr.previewP] at h
   | .asrt .., _, _, _, _, i, p, h => by simp [Expr.previewP] at h
   | .sel .., _, _, _, _, i, p, h => by simp [Expr.previewP] at h
+  | .selOr .., _, _, _, _, i, p, h => by simp [Expr.previewP] at h
   | .list value ml inner before after, hok, hml, hinv, hclean, i, p, h => by
     have hvm := hml.1
     obtain ⟨hv, hin, hb, ha⟩ := hok
